@@ -31,7 +31,7 @@ func ruleNilContradiction(r *Run, rule string, pkgs ...string) {
 		if strings.HasSuffix(file, "_test.go") || strings.HasSuffix(file, "fake_storage.go") || strings.HasSuffix(file, "testing.go") {
 			continue
 		}
-		if !comparesPointerWithNil(fn.Pkg.TypesInfo, fn.Decl.Body) {
+		if !comparesPointerWithNil(fn.Pkg.TypesInfo, fn.Decl.Body) && !bindsVaultRead(fn.Pkg.TypesInfo, fn.Decl.Body) {
 			continue
 		}
 		fl := r.P.FlowOf(fn)
@@ -53,6 +53,32 @@ func ruleNilContradiction(r *Run, rule string, pkgs ...string) {
 			if msg, pos := nilDerefOnPath(fl.Info, p, vol); msg != "" {
 				bad, bpos = msg, pos
 				break
+			}
+		}
+		// the bodies of the function's literals (an iterator's `func(yield …)`, a submitted job) are code of the function too
+		if bad == "" {
+			for _, l := range AllLits(fn.Decl.Body) {
+				lf := r.P.FlowOfLit(l)
+				if lf == nil {
+					continue
+				}
+				lp, ok := lf.Paths()
+				if !ok {
+					continue // no claim (as for functions whose paths cannot be enumerated)
+				}
+				r.Paths += len(lp)
+				lvol := computeVolatile(lf.Info, l.Body)
+				own := OwnOnly(lp)
+				for i := range own {
+					p := &own[i]
+					if msg, pos := nilDerefOnPath(lf.Info, p, lvol); msg != "" {
+						bad, bpos = msg, pos
+						break
+					}
+				}
+				if bad != "" {
+					break
+				}
 			}
 		}
 		r.Check(rule, "nil-then-deref:"+ShortFn(fn.Key), bpos, bad == "", "%s", orOK(bad, "no pointer is dereferenced on a path that established it nil"))
@@ -166,8 +192,35 @@ func derefsIn(info *types.Info, e ast.Node, nilObjs map[types.Object]token.Pos, 
 	walk(e, map[types.Object]bool{})
 }
 
+// isVaultRead: a call of the vault's Read (workflow/storage.*.Read). Its contract — every implementation in the repository
+// keeps it — is "(nil, err) or (plan, nil)": on the branch that established the error non-nil the plan is nil.
+func isVaultRead(info *types.Info, e ast.Expr) bool {
+	c, ok := ast.Unparen(e).(*ast.CallExpr)
+	if !ok {
+		return false
+	}
+	f, ok := calleeFunc(info, c)
+	if !ok {
+		return false
+	}
+	k := FuncKey(f)
+	return strings.HasPrefix(k, "workflow/storage.") && strings.HasSuffix(k, ".Read")
+}
+
+func bindsVaultRead(info *types.Info, body ast.Node) bool {
+	found := false
+	ast.Inspect(body, func(n ast.Node) bool {
+		if as, ok := n.(*ast.AssignStmt); ok && len(as.Lhs) == 2 && len(as.Rhs) == 1 && isVaultRead(info, as.Rhs[0]) {
+			found = true
+		}
+		return !found
+	})
+	return found
+}
+
 func nilDerefOnPath(info *types.Info, p *Path, vol map[string]bool) (string, token.Pos) {
 	nilObjs := map[types.Object]token.Pos{}
+	readErr := map[types.Object]types.Object{} // error variable -> the plan bound with it by a vault Read (round-4 seed C12-8)
 	msg := ""
 	var mpos token.Pos
 	hit := func(o types.Object, pos token.Pos) {
@@ -233,6 +286,12 @@ func nilDerefOnPath(info *types.Info, p *Path, vol map[string]bool) (string, tok
 				if l.Val != "nil" {
 					continue
 				}
+				// the error of a vault Read established non-nil: the plan that came with it is nil
+				if eo := ObjOf(info, l.X); eo != nil && !l.Eq {
+					if po, ok := readErr[eo]; ok && !vol[po.Name()] && !vol[eo.Name()] {
+						nilObjs[po] = e.Pos
+					}
+				}
 				if o, ok := isPointerVar(info, l.X); ok && !vol[o.Name()] {
 					if l.Eq {
 						nilObjs[o] = e.Pos
@@ -245,6 +304,16 @@ func nilDerefOnPath(info *types.Info, p *Path, vol map[string]bool) (string, tok
 			for _, l := range e.Lhs {
 				if o, ok := isPointerVar(info, l); ok {
 					delete(nilObjs, o)
+				}
+				if o := ObjOf(info, l); o != nil {
+					delete(readErr, o)
+				}
+			}
+			if len(e.Lhs) == 2 && len(e.Rhs) == 1 && isVaultRead(info, e.Rhs[0]) {
+				if po, ok := isPointerVar(info, e.Lhs[0]); ok {
+					if eo := ObjOf(info, e.Lhs[1]); eo != nil {
+						readErr[eo] = po
+					}
 				}
 			}
 		case EvCall:
